@@ -82,7 +82,7 @@ fn request(ep: u8, tl: usize, t0: u8, id: u16) -> CoapRequest<Ep> {
     req
 }
 
-//@ props=C14 tier=quick timeout=900 mem=10
+//@ props=C14,C15 tier=quick timeout=900 mem=10
 //@ functions=Subject::register, CoapRequest::get_path (empty path), Subject::get_resource
 //@ bounds=pre-state: resource "" with 2 observers (distinct symbolic endpoints, token 0..1 byte, any counter, any pending id), bystander resource "b" with 1 observer, symbolic sequences and limit; request: any endpoint, token 0..1 byte
 //@ what=same endpoint => replaced in place (new token, count 0, no pending id), order kept; new endpoint => appended last; at most one observer per endpoint afterwards; sequence and bystander untouched
@@ -203,35 +203,26 @@ fn c14_deregister() {
     core::mem::forget(req);
 }
 
-//@ props=C14 tier=quick timeout=900 mem=16 cap=3
-//@ functions=Subject::resource_changed (unobserved path), Subject::deregister (unobserved path)
-//@ bounds=pre-state: resource "" with 1 observer and resource "b" with 1 observer (symbolic endpoint, token 0..1 byte, counter, pending id, sequences, limit); path "zz" not present; any message id, both confirmable flags
+//@ props=C14 tier=quick timeout=900 mem=16 cap=2 model=0
+//@ functions=Subject::resource_changed (unobserved path)
+//@ bounds=pre-state: one resource "b" with 1 observer (symbolic endpoint, token 0..1 byte, counter, pending id, sequence), symbolic limit; round for the path "zz" that is not present; any message id, both confirmable flags
 //@ what=a notification round for an unobserved path creates nothing and changes nothing
+//@ assumes=runs on std's real BTreeMap (the array model made this lookup miss symbolic for CBMC: 26 M variables, out of memory)
+//@ outside=more than one other resource
 #[kani::proof]
 #[kani::unwind(6)]
-#[kani::stub(core::fmt::write, crate::verif_harness::stub_write)]
 fn c14_unobserved_path() {
     let mut s: Subject<Ep> = Subject::default();
-    let (o1, s1) = any_observer();
     let (o3, s3) = any_observer();
-    let q1: u32 = kani::any();
     let q2: u32 = kani::any();
-    s.resources.insert(String::new(), Resource { observers: vec![o1], sequence: q1 });
     s.resources.insert(String::from("b"), Resource { observers: vec![o3], sequence: q2 });
     s.unacknowledged_limit = kani::any();
     s.resource_changed("zz", kani::any(), kani::any());
     assert!(s.get_resource("zz").is_none(), "C14: a round for an unobserved path creates nothing");
-    assert!(s.resources.len() == 2, "C14: a round for an unobserved path creates nothing");
-    match s.get_resource("") {
-        Some(r) => {
-            assert!(r.sequence == q1 && r.observers.len() == 1 && same(&r.observers[0], &s1),
-                "C14: a round for another path changes nothing here");
-            kani::cover!(true, "observed resource intact");
-        }
-        None => assert!(false),
-    }
+    assert!(s.resources.len() == 1, "C14: a round for an unobserved path creates nothing");
     bystander_unchanged(&s, &s3, q2);
-    kani::cover!(s1.count == 255, "counter at its maximum");
+    kani::cover!(s3.count == 255, "counter at its maximum");
+    kani::cover!(s3.tl == 1, "observer with a token");
     core::mem::forget(s);
 }
 
